@@ -616,7 +616,9 @@ def export_model(m, rec, spec, want, nwin, unsorted_H=None):
             rec.run('H_segment', segment)
         if not finite:
             def enlarged():
-                m2 = m.copy()
+                # (Model.copy() is shallow and shares the lattice, which enlarge_mps_unit_cell modifies in place: work on a deep
+                # copy here; the effect on the original of a shallow copy is observed separately below)
+                m2 = _copy.deepcopy(m)
                 m2.enlarge_mps_unit_cell(2)
                 H2 = m2.H_MPO
                 rec.info['enlarged_L'] = int(H2.L)
@@ -626,6 +628,15 @@ def export_model(m, rec, spec, want, nwin, unsorted_H=None):
                     rec.mats['H_enlarged_bond'] = bonds_dense_window(m2.H_bond, m2.lat.mps_sites(), N, False)
                 return contract_mpo(H2, N)
             rec.run('H_enlarged', enlarged)
+
+            def copy_then_enlarge():
+                # enlarging a copy() must leave the original consistent (its lattice must still fit its MPO / H_bond)
+                m0 = _copy.deepcopy(m)
+                m2 = m0.copy()
+                m2.enlarge_mps_unit_cell(2)
+                rec.info['orig_after_enlarging_copy'] = {'lat_N_sites': int(m0.lat.N_sites), 'mpo_L': int(m0.H_MPO.L), 'copy_lat_N_sites': int(m2.lat.N_sites),
+                                                         'copy_mpo_L': int(m2.H_MPO.L)}
+            rec.run('copy_then_enlarge', copy_then_enlarge)
     if 'extra' in want:
         export_extra(m, rec, spec, nwin, has_bond, Hb if has_bond else None)
 
@@ -704,7 +715,10 @@ def export_extra(m, rec, spec, nwin, has_bond, Hb):
             rec.run('ed_matvec', matvec)
 
             def sector(from_bonds):
-                cs = psi1.get_total_charge()
+                # the sector of the first product state: sum of the charges of its local basis states
+                chinfo = sites[0].leg.chinfo
+                cs = chinfo.make_valid(np.sum([s_.leg.to_qflat()[q_] * s_.leg.qconj for s_, q_ in zip(sites, p1)], axis=0)
+                                       if chinfo.qnumber else None)
                 mm = m
                 if from_bonds:
                     mm = M.NearestNeighborModel(lat, Hb)
@@ -727,6 +741,7 @@ def export_extra(m, rec, spec, nwin, has_bond, Hb):
         def ed_sparse():
             ed = ED.ExactDiag(m, sparse=True)
             ed.build_full_H_from_mpo()
+            ed.build_full_H_from_mpo()        # (a second call on the same object: warns, must give the same matrix)
             return npc_dense(ed.full_H, L)
         rec.run('H_ed_sparse', ed_sparse)
         if has_bond and L >= 3:
@@ -739,13 +754,22 @@ def export_extra(m, rec, spec, nwin, has_bond, Hb):
                 return ED.get_numpy_Hamiltonian(mm, from_mpo=from_mpo)
             rec.run('H_np_both_from_bond', lambda: both(False))
             rec.run('H_np_both_from_mpo', lambda: both(True))
+    if (not finite) and has_bond and isinstance(m, M.NearestNeighborModel) and out.get('trivial_shift', True):
+        # bond energies of a product state of the infinite system
+        p1 = product_states(m, seed)[0]
+        out['psi'] = {'p1': p1, 'p2': None, 'alpha': [1.0, 0.0], 'beta': [0.0, 0.0]}
+
+        def bond_energies_inf():
+            psi = MPS.from_product_state(sites, p1, 'infinite', permute=False, unit_cell_width=lat.mps_unit_cell_width)
+            return np.array(m.bond_energies(psi))
+        rec.run('bond_energies', bond_energies_inf)
     if has_bond and L >= 2:
         def from_mpomodel():
             nn2 = M.NearestNeighborModel.from_MPOModel(m)
             return bonds_dense_window(nn2.H_bond, sites, N, finite)
         rec.run('H_bond_from_MPOModel_cls', from_mpomodel)
     # ---- representation-changing options with non-default arguments
-    if finite or L % 3 == 0:
+    if (finite and L >= 3) or (not finite and L % 3 == 0):
         def grouped3():
             m2 = m.copy()
             m2.group_sites(3)
@@ -758,6 +782,16 @@ def export_extra(m, rec, spec, nwin, has_bond, Hb):
                 rec.mats['H_group3_bond'] = bonds_dense_window(m2.H_bond, m2.lat.mps_sites(), n2, finite)
             return a
         rec.run('H_group3', grouped3)
+    if finite and L >= 2 and out.get('trivial_charges'):
+        def grouped_then_exported():
+            # results used again: the grouped model is the operand of ExactDiag and of the numpy exporter
+            m2 = m.copy()
+            m2.group_sites(2)
+            ed = ED.ExactDiag(m2)
+            ed.build_full_H_from_mpo()
+            rec.mats['H_group_then_np'] = ED.get_numpy_Hamiltonian(M.MPOModel(m2.lat, m2.H_MPO))
+            return npc_dense(ed.full_H, m2.H_MPO.L)
+        rec.run('H_group_then_ed', grouped_then_exported)
     if L % 2 == 0 or finite:
         def grouped_given():
             m2 = m.copy()
@@ -770,12 +804,23 @@ def export_extra(m, rec, spec, nwin, has_bond, Hb):
             rec.run('H_group_given', grouped_given)
     if not finite:
         def enlarged3():
-            m2 = m.copy()
+            import copy as _copy
+            m2 = _copy.deepcopy(m)
             m2.enlarge_mps_unit_cell(3)
             if has_bond and isinstance(m2, M.NearestNeighborModel):
                 rec.mats['H_enlarged3_bond'] = bonds_dense_window(m2.H_bond, m2.lat.mps_sites(), N, False)
             return contract_mpo(m2.H_MPO, N)
         rec.run('H_enlarged3', enlarged3)
+
+        def enlarged_then_segment():
+            # results used again: the enlarged model is the operand of extract_segment
+            import copy as _copy
+            m2 = _copy.deepcopy(m)
+            m2.enlarge_mps_unit_cell(nwin)
+            m3 = m2.extract_segment()                 # (defaults: the whole, now enlarged, unit cell)
+            rec.info['enlarged_then_segment_L'] = int(m3.H_MPO.L)
+            return contract_mpo(m3.H_MPO, m3.H_MPO.L)
+        rec.run('H_enlarged_then_segment', enlarged_then_segment)
 
         def segment_enlarge():
             m2 = m.extract_segment(enlarge=nwin)
@@ -790,8 +835,16 @@ def export_extra(m, rec, spec, nwin, has_bond, Hb):
             def from_infinite():
                 ed = ED.ExactDiag.from_infinite_model(m, first=seg[0], last=seg[1])
                 ed.build_full_H_from_mpo()
+                if ed.full_H.rank != 2:
+                    raise ValueError('full_H has %d legs %r' % (ed.full_H.rank, ed.full_H.get_leg_labels()))
                 return npc_dense(ed.full_H, seg[1] - seg[0] + 1)
             rec.run('H_ed_from_infinite', from_infinite)
+
+        def from_infinite_enlarge():
+            ed = ED.ExactDiag.from_infinite_model(m, enlarge=nwin)
+            ed.build_full_H_from_mpo()
+            return npc_dense(ed.full_H, N)
+        rec.run('H_ed_from_infinite_enlarge', from_infinite_enlarge)
     # ---- accessors of the term containers / TermList
     if isinstance(m, M.CouplingModel):
         ot = m.all_onsite_terms()
@@ -821,6 +874,7 @@ def export_extra(m, rec, spec, nwin, has_bond, Hb):
                 tl2 = TermList.from_lattice_locations(lat, terms, [complex(np.asarray(dec(c['strength'])).reshape(-1)[0]) for c in loc],
                                                       **({} if shift is None else {'shift': shift}))
                 acc['tl_from_lattice'] = export_termlist(tl2)
+                acc['tl_from_lattice_unit'] = export_termlist(TermList.from_lattice_locations(lat, terms))    # (strength: default 1.)
             out['accessors'] = acc
         except Exception as e:
             rec.errors['accessors'] = type(e).__name__ + ': ' + str(e)[:200] + ' @ ' + traceback.format_exc().strip().split('\n')[-3][:160]
@@ -834,27 +888,8 @@ def run_spec(case, npz_path):
     lat = make_lattice(spec['lattice'], sites)
     want = case.get('want', ['bond', 'exporters', 'convert', 'options', 'extra'])
 
-    class TheModel(M.CouplingModel, M.MPOModel):
-        pass
-
-    m = M.CouplingModel.__new__(TheModel)
-    M.CouplingModel.__init__(m, lat, explicit_plus_hc=spec.get('explicit_plus_hc', False))
-    for n, c in enumerate(spec['calls']):
-        try:
-            apply_call(m, c)
-        except Exception as e:
-            return {'error': 'call %d %s raised %s: %s' % (n, c['fn'], type(e).__name__, str(e)[:160]),
-                    'error_call': n, 'error_type': type(e).__name__}
-    unsorted_H = None
-    try:
-        H = m.calc_H_MPO()
-        if spec.get('sort_mpo_legs'):
-            import copy as _copy
-            unsorted_H = _copy.deepcopy(H)
-            H.sort_legcharges()
-        M.MPOModel.__init__(m, lat, H)
-    except Exception as e:
-        res = {'error': 'calc_H_MPO raised %s: %s' % (type(e).__name__, str(e)[:200]), 'error_type': type(e).__name__,
+    def failed_build(m, e, what):
+        res = {'error': '%s raised %s: %s' % (what, type(e).__name__, str(e)[:200]), 'error_type': type(e).__name__,
                'tb': traceback.format_exc()[-600:]}
         # the term containers and local operators, for the oracle to decide whether the terms sum to the zero operator
         try:
@@ -866,16 +901,131 @@ def run_spec(case, npz_path):
         except Exception:
             res['export_basic_error'] = traceback.format_exc()[-400:]
         return res
-    # make it a nearest-neighbour model as well when possible (so that group_sites etc. treat H_bond)
-    try:
-        Hb = m.calc_H_bond()
 
-        class TheNNModel(M.CouplingModel, M.NearestNeighborModel, M.MPOModel):
+    unsorted_H = None
+    via = spec.get('via')
+    if via:
+        # ---- the documented route of the model classes: a CouplingMPOModel subclass with init_sites / init_terms, the lattice
+        # given by model parameters (name / class / instance, sizes, boundary conditions, order), H_MPO (and H_bond) built by
+        # init_H_from_terms; optionally the last calls are added after the initialisation and init_H_from_terms is called again
+        from tenpy.models import lattice as Lt
+        ls = spec['lattice']
+        late = int(via.get('late', 0))
+        first_calls = spec['calls'][:len(spec['calls']) - late]
+        late_calls = spec['calls'][len(spec['calls']) - late:]
+        state = {'err': None, 'model': None}
+
+        class GenericBase(M.CouplingMPOModel):
+            def init_sites(self, model_params):
+                if len(sites) == 1:
+                    return sites[0]
+                return tuple(sites)
+
+            def init_terms(self, model_params):
+                super().init_terms(model_params)
+                state['model'] = self
+                for n, c in enumerate(first_calls):
+                    try:
+                        apply_call(self, c)
+                    except Exception as e:
+                        state['err'] = {'error': 'call %d %s raised %s: %s' % (n, c['fn'], type(e).__name__, str(e)[:160]),
+                                        'error_call': n, 'error_type': type(e).__name__}
+                        raise
+
+        class GenericNN(GenericBase, M.NearestNeighborModel):
             pass
-        m.__class__ = TheNNModel
-        M.NearestNeighborModel.__init__(m, lat, Hb)
-    except Exception:
-        pass
+        mp = {'bc_MPS': ls['bc_MPS'], 'explicit_plus_hc': spec.get('explicit_plus_hc', False)}
+        if via.get('explicit_plus_hc_default') and not mp['explicit_plus_hc']:
+            del mp['explicit_plus_hc']
+        if spec.get('sort_mpo_legs'):
+            mp['sort_mpo_legs'] = True
+        how = via.get('lattice_as', 'name')
+        if how == 'instance':
+            mp['lattice'] = lat
+        else:
+            mp['lattice'] = ls['kind'] if how == 'name' else getattr(Lt, ls['kind'])
+            bcs = ls['bc'] if isinstance(ls['bc'], list) else [ls['bc']]
+            if not (via.get('bc_x_default') and bcs[0] == ('open' if ls['bc_MPS'] == 'finite' else 'periodic')):
+                mp['bc_x'] = bcs[0]
+            if len(ls['Ls']) == 1:
+                mp['L'] = ls['Ls'][0]
+            else:
+                mp['Lx'], mp['Ly'] = ls['Ls']
+                mp['bc_y'] = {'open': via.get('open_word', 'ladder'), 'periodic': via.get('periodic_word', 'cylinder')}[bcs[1]]
+            if ls.get('order'):
+                mp['order'] = ls['order']
+        m = None
+        for cls_ in ([GenericNN, GenericBase] if via.get('nn', True) else [GenericBase]):
+            try:
+                state['err'] = None
+                m = cls_(dict(mp))
+                break
+            except Exception as e:
+                if state['err'] is not None:
+                    return state['err']
+                txt = str(e) + traceback.format_exc()
+                if cls_ is GenericNN and ('H_bond' in txt or 'nearest neighbor' in txt or 'to_nn_bond_Arrays' in txt):
+                    continue          # not a nearest-neighbour Hamiltonian: the plain MPO model
+                return failed_build(state['model'], e, 'CouplingMPOModel.__init__')
+        if list(m.lat.order.reshape(-1)) != list(lat.order.reshape(-1)) or list(m.lat.Ls) != list(lat.Ls) or list(m.lat.bc) != list(lat.bc):
+            return {'runner_error': 'init_lattice built a different lattice than the specification: %r %r %r' % (m.lat.order.tolist(), m.lat.Ls, m.lat.bc)}
+        if late_calls:
+            if via.get('manual_flag', True):
+                m.manually_call_init_H = True
+            for n, c in enumerate(late_calls):
+                try:
+                    apply_call(m, c)
+                except Exception as e:
+                    return {'error': 'call %d %s raised %s: %s' % (len(first_calls) + n, c['fn'], type(e).__name__, str(e)[:160]),
+                            'error_call': len(first_calls) + n, 'error_type': type(e).__name__}
+            try:
+                if isinstance(m, M.NearestNeighborModel):
+                    try:
+                        m.calc_H_bond()
+                    except Exception:
+                        m.__class__ = GenericBase       # (the late terms are not nearest-neighbour: only the MPO is rebuilt)
+                m.init_H_from_terms()
+            except Exception as e:
+                return failed_build(m, e, 'init_H_from_terms (second call)')
+        lat = m.lat
+        if spec.get('sort_mpo_legs'):
+            try:
+                unsorted_H = m.calc_H_MPO()
+            except Exception:
+                unsorted_H = None
+        rec.info['via'] = {'cls': type(m).__name__, 'is_nn': isinstance(m, M.NearestNeighborModel), 'late': late}
+    else:
+        class TheModel(M.CouplingModel, M.MPOModel):
+            pass
+
+        m = M.CouplingModel.__new__(TheModel)
+        M.CouplingModel.__init__(m, lat, explicit_plus_hc=spec.get('explicit_plus_hc', False))
+        for n, c in enumerate(spec['calls']):
+            try:
+                apply_call(m, c)
+            except Exception as e:
+                return {'error': 'call %d %s raised %s: %s' % (n, c['fn'], type(e).__name__, str(e)[:160]),
+                        'error_call': n, 'error_type': type(e).__name__}
+        try:
+            tz = spec.get('tol_zero')
+            H = m.calc_H_MPO() if tz is None else m.calc_H_MPO(tol_zero=tz)
+            if spec.get('sort_mpo_legs'):
+                import copy as _copy
+                unsorted_H = _copy.deepcopy(H)
+                H.sort_legcharges()
+            M.MPOModel.__init__(m, lat, H)
+        except Exception as e:
+            return failed_build(m, e, 'calc_H_MPO')
+        # make it a nearest-neighbour model as well when possible (so that group_sites etc. treat H_bond)
+        try:
+            Hb = m.calc_H_bond() if tz is None else m.calc_H_bond(tol_zero=tz)
+
+            class TheNNModel(M.CouplingModel, M.NearestNeighborModel, M.MPOModel):
+                pass
+            m.__class__ = TheNNModel
+            M.NearestNeighborModel.__init__(m, lat, Hb)
+        except Exception:
+            pass
     export_model(m, rec, spec, want, case.get('nwin', 2), unsorted_H=unsorted_H)
     np.savez(npz_path, **rec.mats)
     res = dict(rec.info)
@@ -945,7 +1095,10 @@ def run_split_terms(cases):
         try:
             ct = MultiCouplingTerms(c['L'])
             sw = c['switchLR']
-            ct.add_multi_coupling_term(dec(c['strength']), list(c['ijkl']), list(c['ops']), c['op_string'], sw)
+            if c.get('via_add_coupling_term'):
+                ct.add_coupling_term(dec(c['strength']), c['ijkl'][0], c['ijkl'][1], c['ops'][0], c['ops'][1], c['op_string'], switchLR=sw)
+            else:
+                ct.add_multi_coupling_term(dec(c['strength']), list(c['ijkl']), list(c['ops']), c['op_string'], sw)
             out.append({'stored': export_multi(ct), 'n_connections': len(ct.connections)})
         except Exception as e:
             out.append({'error': type(e).__name__ + ': ' + str(e)[:200]})
@@ -986,14 +1139,96 @@ def start_trace():
 
 
 def trace_result():
-    return {k: sorted(v) for k, v in _trace_hits.items()}
+    return {'lines': {k: sorted(v) for k, v in _trace_hits.items()},
+            'options': {q: {k: sorted(v) for k, v in d.items()} for q, d in _opt_seen.items()}}
+
+
+_opt_seen = {}
+
+
+def _tag(v, dflt):
+    """short description of an argument value: 'default' or the value / its type"""
+    simple = (bool, int, float, str, type(None))
+    if v is dflt or (isinstance(v, simple) and isinstance(dflt, simple) and type(v) is type(dflt) and v == dflt):
+        return 'default'
+    if isinstance(v, (bool, type(None), str)):
+        return repr(v)[:24]
+    if isinstance(v, (int, float, np.integer, np.floating)):
+        return '%s:%s' % (type(v).__name__, 'neg' if v < 0 else ('zero' if v == 0 else 'pos'))
+    if isinstance(v, (list, tuple)):
+        return '%s[%d]' % (type(v).__name__, len(v))
+    return type(v).__name__
+
+
+def install_option_recorder():
+    """wrap every public function / method of the anchored modules that has optional parameters: record, per parameter, which
+    (kinds of) values it was called with"""
+    import functools
+    from tenpy.algorithms import exact_diag as E_
+    from tenpy.models import model as M_
+    from tenpy.networks import terms as T_
+
+    def wrap(f, qual):
+        try:
+            sig = inspect.signature(f)
+        except (TypeError, ValueError):
+            return None
+        names = list(sig.parameters)
+        opts = {p.name: p.default for p in sig.parameters.values() if p.default is not inspect.Parameter.empty}
+        if not opts:
+            return None
+
+        @functools.wraps(f)
+        def w(*a, **kw):
+            try:
+                given = dict(zip(names, a))
+                given.update(kw)
+                d = _opt_seen.setdefault(qual, {})
+                for k, dflt in opts.items():
+                    st = d.setdefault(k, set())
+                    if len(st) < 10:
+                        st.add(_tag(given[k], dflt) if k in given else 'default')
+            except Exception:
+                pass
+            return f(*a, **kw)
+        return w
+    for mod, short in ((M_, 'model'), (T_, 'terms'), (E_, 'exact_diag')):
+        for cname, obj in list(vars(mod).items()):
+            if inspect.isfunction(obj) and obj.__module__ == mod.__name__ and not cname.startswith('_'):
+                w = wrap(obj, '%s.%s' % (short, cname))
+                if w is not None:
+                    setattr(mod, cname, w)
+            elif inspect.isclass(obj) and obj.__module__ == mod.__name__:
+                for name, f in list(vars(obj).items()):
+                    if name.startswith('_') and name not in ('__init__', '__iadd__', '__add__', '__mul__'):
+                        continue
+                    qual = '%s.%s.%s' % (short, cname, name)
+                    if cname == 'CouplingMPOModel' and name in vars(M_.CouplingModel):
+                        qual = '%s.CouplingModel.%s' % (short, name)       # (the decorated add_* methods)
+                    if isinstance(f, classmethod):
+                        w = wrap(f.__func__, qual)
+                        if w is not None:
+                            setattr(obj, name, classmethod(w))
+                    elif isinstance(f, staticmethod):
+                        continue
+                    elif inspect.isfunction(f):
+                        w = wrap(f, qual)
+                        if w is not None:
+                            setattr(obj, name, w)
 
 
 def main():
+    try:
+        import resource
+        lim = 6 << 30            # (a runaway case must not exhaust the memory of the shared machine)
+        resource.setrlimit(resource.RLIMIT_AS, (lim, lim))
+    except Exception:
+        pass
     fin, fout = sys.argv[1], sys.argv[2]
     payload = json.load(open(fin))
     if payload.get('trace'):
         start_trace()
+        install_option_recorder()
     if payload.get('kind') == 'list_models':
         json.dump(list_models(), open(fout, 'w'))
         return
